@@ -422,7 +422,9 @@ def _params_pass_through(h, P, pname, req, case, w):
         top = h.Module(name="PTop")
         top.a, top.b, top.c, top.d = h.Signals(4)
         variants = [dict(mult=1), dict(mult=2), dict(mult=4, nf=2), dict(mult=2), dict(w=3 * h.prefix.µ, l=1 * h.prefix.µ, mult=2),
-                    dict(w=3 * h.prefix.µ, l=1 * h.prefix.µ, mult=3)]
+                    dict(w=3 * h.prefix.µ, l=1 * h.prefix.µ, mult=3),
+                    # a value GIVEN as zero is a given value (a device kept in the netlist, switched off), not an unset one
+                    dict(mult=0), dict(mult=0 * h.prefix.m, nf=1), dict(mult=0.0)]
         for k, v in enumerate(variants):
             top.add(h.Mos(**req, **v)(d=top.a, g=top.b, s=top.c, b=top.d), name=f"m{k}")
         try:
